@@ -2,7 +2,7 @@
    Only property theorems live here; each is closed by `exact` and followed by Print Assumptions. *)
 From RichModel Require Import Prelude Cells Segments SpecCells.
 From RichGen Require Import CellWidthTable.
-From RichProofs Require Import CellsP SegmentsP.
+From RichProofs Require Import CellsP SegmentsP SegmentsP2.
 
 (* (1) the table lookup = linear scan, for EVERY sorted table and EVERY integer code point *)
 Theorem C13_bsearch_is_linear : forall T cp,
@@ -60,9 +60,31 @@ Theorem C13_adjust_line_length_spec : forall (line : list (seg Z)) n style pad,
 Proof. exact adjust_line_length_spec. Qed.
 Print Assumptions C13_adjust_line_length_spec.
 
+(* (7) split_and_crop_lines: every line of split_lines, shaped by adjust_line_length to the requested
+   length with the requested padding style (this is the repaired code; see the refutation below) *)
+Theorem C13_split_and_crop_lines_spec : forall segs n style pad incl, 0 <= n ->
+  shape_ok_b n style pad incl (split_lines segs) (split_and_crop_lines false segs n style pad incl) = true.
+Proof. exact split_and_crop_lines_spec. Qed.
+Print Assumptions C13_split_and_crop_lines_spec.
+
+(* (8) set_shape: given lines shaped to the width, blank padding lines up to the height *)
+Theorem C13_set_shape_spec : forall lines width height style, 0 <= width ->
+  let out := set_shape lines width height style in
+  let h := match height with None => length lines | Some h => Z.to_nat h end in
+  shape_ok_b width style true false lines (firstn (length lines) out) = true /\
+  forallb (fun l => adjust_ok_b [] width style true l) (skipn (length lines) out) = true /\
+  length out = Nat.max (length lines) h.
+Proof. exact set_shape_spec. Qed.
+Print Assumptions C13_set_shape_spec.
+
+Example C13_shaping_nonvacuous :
+  split_and_crop_lines false [mkSeg [97; 10; 12354; 12354] (Some 1) false] 3 (Some 7) true false
+  = [[mkSeg [97] (Some 1) false; mkSeg [32; 32] (Some 7) false]; [mkSeg [12354; 32] (Some 1) false]].
+Proof. vm_compute. reflexivity. Qed.
+
 (* The behaviour of rich 9.10.0 as found (loop variable shadowing the padding style) violates the
    shaping contract; the witness was replayed on the implementation and repaired by a fix: commit. *)
 Theorem C13_split_and_crop_asis_refuted : exists segs n style,
-  shape_ok_b n style true (split_lines segs) (split_and_crop_lines true segs n style true false) = false.
+  shape_ok_b n style true false (split_lines segs) (split_and_crop_lines true segs n style true false) = false.
 Proof. exists [mkSeg [10] None false], 1, (Some 0). vm_compute. reflexivity. Qed.
 Print Assumptions C13_split_and_crop_asis_refuted.
